@@ -8,6 +8,7 @@
 -/
 import DulwichModel.Lemmas.Pack
 import DulwichModel.Lemmas.PackIndex
+import DulwichModel.Props.C03
 
 namespace Dulwich.Props.C02
 open Dulwich Dulwich.Pack Dulwich.Delta Dulwich.PackIndex
@@ -162,6 +163,67 @@ theorem crc_ranges_consistent (deflate : Bytes → Bytes) (H : Bytes → Bytes) 
   rcases this with h | h
   · simp at h
   · rw [List.append_assoc]; exact h
+
+/-- **Random access round trip (bases precede).**  If the record list denotes objects `objs`
+(`objectsOf recs = .ok objs`: every delta names a base that occurs *earlier* in the list — so the writer
+emits it as OFS_DELTA — and applies to it), then in the written pack every recorded entry, resolved by
+`Pack.resolve_object` from its recorded offset (walk down the OFS chain of any depth, apply the deltas
+back up), yields exactly the type and content the list denotes; fuel `= number of records` suffices, so
+the walk terminates.  `lookup` (the index, used for REF_DELTA only) is arbitrary. -/
+theorem pack_random_access (deflate : Bytes → Bytes) (inflate : Bytes → Option (Bytes × Bytes))
+    (H : Bytes → Bytes) (hs : Nat) (recs : List Rec) (objs : List (Bytes × Nat × Bytes))
+    (lookup : Bytes → Except Err Nat)
+    (hz : ZlibOk deflate inflate) (hhs : 0 < hs) (hH : ∀ x, (H x).length = hs)
+    (hwf : ∀ r ∈ recs, wfRec hs r = true) (hobj : objectsOf recs = .ok objs) :
+    List.Forall₂
+      (fun e a => e.name = a.1 ∧
+        resolveAt inflate hs lookup (writePack deflate H recs).1 recs.length e.offset = .ok (a.2.1, a.2.2))
+      (writePack deflate H recs).2 objs := by
+  unfold writePack writePackBody
+  simp only [packHeader_length]
+  generalize hT : H (packHeader recs.length ++ (writeRecs deflate 12 [] recs).1) = T
+  have hTne : T ≠ [] := by
+    intro h
+    have := hH (packHeader recs.length ++ (writeRecs deflate 12 [] recs).1)
+    rw [hT, h] at this; simp at this; omega
+  rw [List.append_assoc]
+  have hparse := parseAt_layout deflate inflate hz hs T hTne recs 12 [] (packHeader recs.length)
+    (packHeader_length _) hwf (by simp)
+  have hal := resolve_layout deflate inflate hs lookup
+    (packHeader recs.length ++ ((writeRecs deflate 12 [] recs).1 ++ T)) recs 12 [] [] objs hparse
+    (by simp [Aligned]) (Nat.le_refl _) (by simp) hobj
+  exact aligned_forall₂ _ recs.length _ _ hal (by rw [writeRecs_snd_length]; simp)
+
+/-- **Deltified records denote their targets** (the link to C03).  A record whose payload is
+`create_delta(base content, target)` — for *any* opcode list that stays inside the base, as C03 proves
+for difflib's, `similar`'s and git's — contributes the target, with the base's type, to `objectsOf`. -/
+theorem deltified_record_denotes_target (acc : List (Bytes × Nat × Bytes)) (rs : List Rec)
+    (name bname : Bytes) (ty : Nat) (a : Bytes × Nat × Bytes) (ops : List Op)
+    (hfind : acc.find? (fun x => x.1 = bname) = some a)
+    (hv : Dulwich.Props.C03.OpsValid a.2.2 ops) (h32 : a.2.2.length ≤ 2 ^ 32)
+    (hins : ∀ d, Op.insert d ∈ ops → 0 < d.length) :
+    resolveRecs acc (⟨name, ty, some bname, createDelta a.2.2 ops⟩ :: rs)
+      = resolveRecs ((name, a.2.1, opsTarget a.2.2 ops) :: acc) rs := by
+  simp only [resolveRecs, hfind, Dulwich.Props.C03.apply_create a.2.2 ops hv h32 hins]
+
+/-- Non-vacuity: a blob, an OFS delta on it, and a delta on the delta (chain depth 2), with a toy "zlib"
+(`deflate x = len x :: x`).  All hypotheses of `pack_sequential_roundtrip` / `pack_random_access` hold and
+random access to the last entry gives the twice-patched content. -/
+example :
+    let deflate : Bytes → Bytes := fun x => UInt8.ofNat x.length :: x
+    let inflate : Bytes → Option (Bytes × Bytes) := fun b =>
+      match b with | [] => none | n :: r => some (r.take n.toNat, r.drop n.toNat)
+    let H : Bytes → Bytes := fun _ => [0xaa]
+    let base : Bytes := [1, 2, 3, 4, 5]
+    let recs : List Rec := [⟨[1], 3, none, base⟩,
+      ⟨[2], 3, some [1], createDelta base [.copy 1 3, .insert [9]]⟩,
+      ⟨[3], 3, some [2], createDelta [2, 3, 4, 9] [.insert [7], .copy 0 4]⟩]
+    (∀ r ∈ recs, wfRec 1 r = true) ∧
+      objectsOf recs = .ok [([3], 3, [7, 2, 3, 4, 9]), ([2], 3, [2, 3, 4, 9]), ([1], 3, base)] ∧
+      (layoutRecs deflate 12 [] recs).map (fun p => (p.1, p.2.ty, p.2.base))
+        = [(12, 3, .none), (19, 6, .ofs 7), (28, 6, .ofs 9)] ∧
+      resolveAt inflate 1 (fun _ => .error .key) (writePack deflate H recs).1 3 28 = .ok (3, [7, 2, 3, 4, 9]) := by
+  refine ⟨by decide, by decide +kernel, by decide +kernel, by decide +kernel⟩
 
 /-! ## 4. index v2: write → load → lookup, sound and complete *except* for the phantom name -/
 
